@@ -3,14 +3,19 @@
 description) and the latest trial results of tools/try_seed.sh (/var/tmp/seedrun*.txt)."""
 import glob, json, os, re
 trials = {}
-for f in sorted(glob.glob("/var/tmp/seedrun*.txt"), key=os.path.getmtime):
+# trial logs are kept in seeded/trials/<mtime>_<name>.txt (copied there from /var/tmp): seedrun* = tools/try_seed.sh on
+# /repo itself, devseeds* = tools/dev_seed.sh on an exported copy (development-time trials)
+HERE = os.path.dirname(os.path.dirname(os.path.abspath(__file__)))
+for f in sorted(glob.glob(os.path.join(HERE, "seeded", "trials", "*.txt"))):
+    dev = "devseeds" in os.path.basename(f)
     for l in open(f):
         m = re.match(r"(\S+) (C\d\d) rc=(-?\d+) wall=(\d+)s ::\s*(.*)$", l.strip())
         if m:
             sid, prop, rc, wall, txt = m.groups()
             fails = sorted(set(re.findall(r"failing: ([^;]*)", txt)))
             hist = trials.get(sid, {}).get(prop, {}).get("history", [])
-            trials.setdefault(sid, {})[prop] = {"history": hist + [{0: "missed", 1: "VIOLATION", 2: "inconclusive"}.get(int(rc), rc)],"cmd": "./check %s --tier quick" % prop, "exit": int(rc), "wall_s": int(wall),
+            trials.setdefault(sid, {})[prop] = {"history": hist + [{0: "missed", 1: "VIOLATION", 2: "inconclusive"}.get(int(rc), rc) + (" (dev)" if dev else "")],
+                                                 "how": "tools/dev_seed.sh (exported copy of /repo HEAD, VERIF_REPO)" if dev else "tools/try_seed.sh (git -C /repo apply; ./check; git -C /repo checkout -- .)","cmd": "./check %s --tier quick" % prop, "exit": int(rc), "wall_s": int(wall),
                                                  "verdict": {0: "MISSED (exit 0)", 1: "VIOLATION reported", 2: "inconclusive"}.get(int(rc), rc),
                                                  "failing_obligations": [x.strip() for x in ", ".join(fails).split(", ") if x.strip()]}
 NEEDS = {}
